@@ -77,7 +77,7 @@ PROPS = {
         corr=["corr.append", "corr.as_bytes", "corr.encoder", "corr.has_ty", "corr.const"],
         oracle=["oracle.C10"]),
     "C15": dict(
-        runs=lambda t: [catalogue(t, "enc,dec", values=(12, 80), nbytes=(40, 400), exhaustive=(1, 1), tag="union",
+        runs=lambda t: [catalogue(t, "enc,dec", values=(48, 200), nbytes=(80, 600), exhaustive=(1, 1), tag="union",
                                   extra=["--selectors"]),
                         special(t, "helpers", count=(2000, 50000))],
         corr=["corr.enc", "corr.has_ty", "corr.dec.class", "corr.dec.value", "corr.split_union", "corr.const"],
